@@ -206,8 +206,8 @@ theorem lower_instanceID : lowerAscii "instanceID".toList = "instanceid".toList 
     are pairwise distinct: every node has at most one bind (and, with
     `binds_exactly_where_prescribed`, exactly one iff its row or type prescribes one).  For all
     row lists, all nestings. -/
-theorem one_bind_per_node (root : Str) (ks : List RK) (metas : List Q) (bs : List Bind)
-    (h : bindsOfRows root ks metas = .ok bs) : (bs.map (·.path)).Nodup := by
+theorem one_bind_per_node (root : Str) (ks : List RK) (metas : List Q) (bs : List Bind) {extra : List Str}
+    (h : bindsOfRows root ks metas extra = .ok bs) : (bs.map (·.path)).Nodup := by
   unfold bindsOfRows at h
   simp only at h
   split at h
@@ -434,8 +434,8 @@ theorem noninterference (root : Str) (tops : List Str) (st : List (Str × Bool))
   · have := renderAll_length _ _ _ _ hM'
     rw [sameShape_names r r' hs]; omega
 
-theorem bindsOfRows_ok (root : Str) (ks : List RK) (metas : List Q) (bs : List Bind)
-    (h : bindsOfRows root ks metas = .ok bs) :
+theorem bindsOfRows_ok (root : Str) (ks : List RK) (metas : List Q) (bs : List Bind) {extra : List Str}
+    (h : bindsOfRows root ks metas extra = .ok bs) :
     ∃ es, walk root [] ks = some es ∧
       renderAll root (topNames 0 ks) (es ++ (metas.map (metaElem root) ++ [instanceID root])) = some bs := by
   unfold bindsOfRows at h
